@@ -181,6 +181,7 @@ def polyOp (mio : MIO M) (rio : RIO R) (st : List (M × R)) (name arg : String) 
   | "mul" => do let p ← parseTerms mio rio arg; upd (mulAssign st p)
   | "rmul" => do let p ← parseTerms mio rio arg; upd (mulAssign p st)
   | "lcmul" => do let p ← parseTerms mio rio arg; upd (mul st p)
+  | "pow" => do let n ← parseNat? arg; if n > 8 then none else upd (powP st n)
   | "lt" =>
       let t := leadTerm mio.cmpGrlex st
       some (st, mio.shw t.1 ++ ":" ++ rio.shw t.2)
